@@ -48,8 +48,8 @@ through every operation (`machine_keeps_ci`; the premise "which cells are notifi
 `no_stale_in_sub_spaces_after_member_edit` is derived: `clearing_covers_every_change`), hence
 `no_stale_value_after_any_structural_history` and `live_equals_edits_only`.
 
-What is **not** a Lean theorem: `rename_cells` without the coverage check, model-level references,
-object-valued references, parametrised spaces, formulas with handlers – decided by the
+What is **not** a Lean theorem: model-level references, object-valued references, parametrised
+spaces, formulas with handlers – decided by the
 implementation-only oracle (live model against a model to which only the edits were applied, after
 every evaluation) and by the small-scope exhaustive enumeration of single edits.  The mechanism model functions the theorems are about
 are tied to the code by the value-layer correspondence of this property's check
@@ -596,29 +596,30 @@ edit and in EVERY sub space.  `Edit.Covers t st st' cl`: a cells (own or derived
 whose namespace differs between `st` and `st'` is notified or cleared; a cells whose entry differs
 (new definer, new formula, deleted) is cleared as an object; for a reference whose entry differs the
 cells of its space are notified and, if it existed, `clear_attr_referrers` is performed.  From the
-structural invariant alone, for `new_space`, `del space`, `new_cells`, `set_cells_property` (formula
-or cache flag), `del_cells`, `space.name = v` (new and changed), `del_ref`, `add_bases`,
-`remove_bases`.  This is the premise `hL` of `no_stale_in_sub_spaces_after_member_edit`, derived from
-the definition of the clearing instead of assumed. -/
+structural invariant alone, for EVERY structural operation: `new_space`, `del space`, `new_cells`,
+`set_cells_property` (formula or cache flag), `del_cells`, `rename_cells`, `space.name = v` (new and
+changed), `del_ref`, `add_bases`, `remove_bases`.  This is the premise `hL` of
+`no_stale_in_sub_spaces_after_member_edit`, derived from the definition of the clearing instead of
+assumed. -/
 theorem clearing_covers_every_change (P : Edit.Params) (w : Edit.W) (o : SM.Op) (hi : SM.Inv w.sm)
-    (hp : Edit.Proved (.struct o) = true) (st' : SM.St) (hop : w.sm.apply P.kw o = some st') :
+    (st' : SM.St) (hop : w.sm.apply P.kw o = some st') :
     Edit.Covers (w.tabs.grow st') w.sm st' (Edit.clearing P.kw (w.tabs.grow st') w.sm st' o) :=
-  Edit.stepCovers_of_proved P w (.struct o) hi hp st' hop
+  Edit.stepCovers_of_inv P w (.struct o) hi st' hop
 
 /-- **`machine_keeps_ci`: every operation of the combined machine keeps the invariant** – for the
-definitions of the NEW structure.  Every operation except `rename_cells`; no premise about which
-cells are notified. -/
+definitions of the NEW structure.  No premise about which cells are notified. -/
 theorem machine_keeps_ci (P : Edit.Params) (lt : Node → Node → Prop) (ho : StrictOrder lt) (w : Edit.W)
-    (op : Edit.Op) (hp : Edit.Proved op = true) (hw : WF (w.env P) lt) (h : Edit.CIW P lt w) :
+    (op : Edit.Op) (hw : WF (w.env P) lt) (h : Edit.CIW P lt w) :
     Edit.CIW P lt (Edit.step P w op) :=
-  Edit.step_ciw ho w op hw h (Edit.stepCovers_of_proved P w op h.inv hp)
+  Edit.step_ciw ho w op hw h (Edit.stepCovers_of_inv P w op h.inv)
 
-/-- …and EVERY operation (`rename_cells` too) when the decidable coverage check
-`Edit.stepCovered P w op` holds in the state at hand. -/
-theorem machine_keeps_ci_partial (P : Edit.Params) (lt : Node → Node → Prop) (ho : StrictOrder lt) (w : Edit.W)
-    (op : Edit.Op) (hc : Edit.Proved op = true ∨ Edit.stepCovered P w op = true) (hw : WF (w.env P) lt)
-    (h : Edit.CIW P lt w) : Edit.CIW P lt (Edit.step P w op) :=
-  Edit.step_ciw ho w op hw h (Edit.stepCovers_of_admissible w op h.inv hc)
+/-- the decidable form of the coverage premise (`Edit.stepCovered`, evaluated by the driver at every
+step of every compared history as a cross-check of `clearing_covers_every_change`) suffices too -/
+theorem machine_keeps_ci_of_check (P : Edit.Params) (lt : Node → Node → Prop) (ho : StrictOrder lt) (w : Edit.W)
+    (o : SM.Op) (hs : Edit.supported o = true) (hc : Edit.stepCovered P w (.struct o) = true)
+    (hw : WF (w.env P) lt) (h : Edit.CIW P lt w) : Edit.CIW P lt (Edit.step P w (.struct o)) :=
+  Edit.step_ciw ho w _ hw h
+    (Edit.stepCovers_of_check P w _ (fun o' e => by cases e; exact hs) hc)
 
 /-- **Every state the combined machine reaches from the empty model has the invariant** – any finite
 interleaving of structural edits (accepted or refused) and evaluations, assignments, clearings. -/
@@ -690,12 +691,11 @@ theorem structure_regime_from_sources (P : Edit.Params) (t : Edit.Tabs) (st : SM
     WF (Edit.envOf P t st) lt :=
   Edit.wf_envOf P t st lt ha hnc hsc hr
 
-/-- …and then EVERY history is admissible whose `rename_cells` steps pass the check -/
+/-- …and then EVERY history is admissible -/
 theorem histories_admissible_from_sources (P : Edit.Params) (lt : Node → Node → Prop)
     (hnc : ∀ v key, Edit.NsNoCatch (P.srcOf v key)) (hsc : ∀ v key, Edit.NsScoped (P.srcOf v key))
-    (hcalls : ∀ v key, Edit.NsNoCalls (P.srcOf v key)) (ops : List Edit.Op)
-    (hc : Edit.checkOps P {} ops = true) : Edit.Admissible P lt {} ops :=
-  Edit.admissible_of_sources P lt hnc hsc hcalls ops {} Edit.allocOK_empty hc
+    (hcalls : ∀ v key, Edit.NsNoCalls (P.srcOf v key)) (ops : List Edit.Op) : Edit.Admissible P lt {} ops :=
+  Edit.admissible_of_sources P lt hnc hsc hcalls ops {} Edit.allocOK_empty
 
 /-! Non-vacuity (`Proofs/EditMachineExamples.lean`): `Base.f = y * 2`, `Base.y = 1`, `Sub(Base)` with
 its own `y = 10`.  `Sub.f()` – the DERIVED cells, `y` resolved in `Sub` – is 20 and `Base.f()` is 2.
@@ -730,8 +730,8 @@ example : Edit.noEvals Edit.eOps = [
     .struct (.setFormula ["Base"] "f" 1)] := rfl
 
 /-- the sources of the example are in the regime, in every structure -/
-example (ops : List Edit.Op) (hc : Edit.checkOps Edit.eP {} ops = true) : Edit.Admissible Edit.eP idLt {} ops :=
-  histories_admissible_from_sources Edit.eP idLt Edit.eP_noCatch Edit.eP_scoped Edit.eP_noCalls ops hc
+example (ops : List Edit.Op) : Edit.Admissible Edit.eP idLt {} ops :=
+  histories_admissible_from_sources Edit.eP idLt Edit.eP_noCatch Edit.eP_scoped Edit.eP_noCalls ops
 
 /-- a reference edit in the base reaches the sub space that derives the reference: `Base.y := 5` in a
 model where `Sub2(Base)` does NOT override `y`: `Sub2.f()` goes from 2 to 10 -/
@@ -743,7 +743,7 @@ example :
     (Edit.run Edit.eP {} (ops.take 5)).ex.data = [((1, []), .int 2)] ∧
     (Edit.run Edit.eP {} ops).ex.data = [] ∧
     Edit.answer Edit.eP (Edit.run Edit.eP {} ops) ["Sub2"] "f" [] = some (.ok (.int 10)) ∧
-    Edit.checkOps Edit.eP {} ops = true := by
+    Edit.stepCovered Edit.eP (Edit.run Edit.eP {} (ops.take 5)) (.struct (.setRef ["Base"] "y" 5)) = true := by
   decide
 
 end MxModel.C02
